@@ -1,2 +1,8 @@
 import P2P.Props.C16
-#print axioms P2P.Props.C16.placeholder
+#print axioms P2P.Props.C16.peoe_conserves
+#print axioms P2P.Props.C16.bonded_symmetric
+#print axioms P2P.Props.C16.radii_positive
+#print axioms P2P.Props.C16.radius_lookup_order
+#print axioms P2P.Props.C16.transfer_spec
+#print axioms P2P.Props.C16.ligand_only_partial
+#print axioms P2P.Props.C16.name_clash_witness
